@@ -64,7 +64,7 @@ fn contexts(call: &str, j1: &str, j2: &str) -> Vec<(&'static str, Vec<String>, S
         ("iife-shadowing-helpers", vec![], format!("((g, mk, loc, a) => {})({}, {}, {}, {})", c, j1, j2, j1, j2), 0),
         ("iife-param-named-f", vec![], format!("((x, y) => {})({}, {})", c, j1, j2), 0),
         // the caller's parameters / locals carry the names the callee binds inside its own body
-        ("iife-shadowing-body-locals", vec![], format!("((tq, rq, cq) => {})({}, {}, {})", c, j1, j2, j1), 0),
+        ("iife-shadowing-body-locals", vec![], format!("((tq, rq, cq, ks) => {})({}, {}, {}, {})", c, j1, j2, j1, j2), 0),
         ("do-block-shadowing-body-locals", vec![], format!("do {{\n  tq = {}\n  rq = {}\n  cq = {}\n  return {}\n}}", j1, j2, j1, c), 0),
         ("do-block-shadowing", vec![], format!("do {{\n  k = {}\n  m = {}\n  g = {}\n  return {}\n}}", j1, j2, j1, c), 0),
         ("via-callback", vec![], format!("[{}] via (k => {})", j1, c), 1),
@@ -84,6 +84,17 @@ fn contexts(call: &str, j1: &str, j2: &str) -> Vec<(&'static str, Vec<String>, S
         ("alias-as-argument", vec![], format!("((k, m, g) => {})(f, f, f)", c), 0),
         ("call-through-alias", vec!["alias_three = f".into()], c.replacen("f(", "alias_three(", 1), 0),
     ]
+    .into_iter()
+    .chain(if c.starts_with("f(") {
+        // f handed over by value to a caller whose own parameter is called f
+        vec![
+            ("by-value-under-own-name", vec![], format!("((h0, f) => {})(f, {})", c.replacen("f(", "h0(", 1), j1), 0),
+            ("by-value-under-own-name-via", vec![], format!("([f] via ((h0, f) => {}))[0]", c.replacen("f(", "h0(", 1)), 0),
+        ]
+    } else {
+        vec![]
+    })
+    .collect()
 }
 
 impl Check for Closures {
@@ -284,7 +295,7 @@ fn site_case(tape: &[u16], j1: MV, j2: MV) -> Case {
             sc.fns.push("m".into());
         }
     }
-    let form = t.pick(28);
+    let form = t.pick(31);
     let mut expect: Option<String> = None;
     let mut body_scope = sc.clone();
     let mut call = "f(3)".to_string();
@@ -432,6 +443,27 @@ fn site_case(tape: &[u16], j1: MV, j2: MV) -> Case {
             let v = t.pick(2);
             defs.push(["f = n => if n == 0 then k else (tq = n) + f(n - 1) + tq * 0", "f = n => if n == 0 then k else [tq = n, f(n - 1)][1] + tq"][v].into());
             expect = Some(["((3 + ((2 + ((1 + k) + 0)) + 0)) + 0)", "k + 1 + 2 + 3"][v].into());
+        }
+        28 => {
+            // the self-call comes before the captured name in the body
+            defs.push(["f = n => if n > 0 then f(n - 1) + k else 0", "f = n => if n > 0 then [f(n - 1), k][0] + k else 0"][t.pick(2)].into());
+            call = "f(2)".into();
+            expect = Some("0 + k + k".into());
+        }
+        29 => {
+            // a helper that is defined after its user comes before the captured name
+            defs.push("f = x => later(x) + k".into());
+            defs.push("later = y => y * 2".into());
+            expect = Some("6 + k".into());
+        }
+        30 => {
+            // a captured name that is only read inside a computed record key
+            defs.push("ks = \"key\" + \"!\"".into());
+            defs.push(["f = x => {[ks]: x}", "f = x => keys({[ks + \"b\"]: x, a: 1})", "f = x => (y => {[ks]: y})(x)"][t.pick(3)].into());
+            expect = Some(match defs.last().unwrap().as_str() {
+                "f = x => keys({[ks + \"b\"]: x, a: 1})" => "[\"key!b\", \"a\"]",
+                _ => "{\"key!\": 3}",
+            }.into());
         }
         24 => {
             // ... and one nested inside a captured list / record
